@@ -109,6 +109,67 @@ fn run(line: &str) -> String {
     )
 }
 
+/// `c17 --url-probe`: end-to-end observation of the URL the HTTP supplier really requests.
+/// A loopback listener plays the symbol server (always 404) and records every request;
+/// `HttpSymbolSupplier::locate_symbols` runs with base URL `http://127.0.0.1:<port>/root/`.
+/// Case: `<code_file> <debug_file> <debug id text> <code id text>` as above.
+/// Answer: `U|<server_rel of breakpad_sym_lookup: hex or N>|<request targets, hex, comma separated>`
+fn url_probe() {
+    use breakpad_symbols::{HttpSymbolSupplier, SymbolSupplier};
+    use std::io::{Read, Write};
+    use std::net::TcpListener;
+    use std::sync::mpsc;
+    use std::time::Duration;
+    let listener = TcpListener::bind("127.0.0.1:0").expect("bind loopback");
+    let port = listener.local_addr().unwrap().port();
+    let (tx, rx) = mpsc::channel::<String>();
+    std::thread::spawn(move || {
+        for s in listener.incoming() {
+            if let Ok(mut s) = s {
+                let mut buf = [0u8; 8192];
+                let n = s.read(&mut buf).unwrap_or(0);
+                let req = String::from_utf8_lossy(&buf[..n]).to_string();
+                let target = req.lines().next().unwrap_or("").split(' ').nth(1).unwrap_or("").to_string();
+                let _ = tx.send(target);
+                let _ = s.write_all(b"HTTP/1.1 404 Not Found\r\nContent-Length: 0\r\nConnection: close\r\n\r\n");
+            }
+        }
+    });
+    let rt = tokio::runtime::Builder::new_current_thread().enable_all().build().expect("runtime");
+    let dir = tempfile::tempdir().expect("tempdir");
+    for_each_case(|line| {
+        let mut t = Toks::new(line);
+        let cf = tok(t.str());
+        let df = tok(t.str());
+        let did = tok(t.str()).map(|s| DebugId::from_breakpad(&s).expect("debug id text parses"));
+        let cid = tok(t.str()).map(CodeId::new);
+        let m = SimpleModule::from_basic_info(df, did, cf, cid);
+        let rel = breakpad_sym_lookup(&m).map(|l| l.server_rel);
+        let supplier = HttpSymbolSupplier::new(
+            vec![format!("http://127.0.0.1:{}/root/", port)],
+            dir.path().join("cache"),
+            dir.path().join("tmp"),
+            vec![],
+            Duration::from_secs(3),
+        );
+        let _ = rt.block_on(supplier.locate_symbols(&m));
+        std::thread::sleep(Duration::from_millis(20));
+        let mut reqs: Vec<String> = vec![];
+        while let Ok(r) = rx.try_recv() {
+            reqs.push(hex(r.as_bytes()));
+        }
+        format!(
+            "U|{}|{}",
+            rel.map(|r| hex(r.as_bytes())).unwrap_or_else(|| "N".into()),
+            reqs.join(",")
+        )
+    });
+}
+
 fn main() {
-    for_each_case(run);
+    if std::env::args().any(|a| a == "--url-probe") {
+        url_probe();
+    } else {
+        for_each_case(run);
+    }
 }
